@@ -123,6 +123,7 @@ type Options struct {
 	OnFS      func(ev FSEvent)
 	ClockWide bool // wide clock-delta distribution
 	Teardown  func(s *Sim)
+	OnEnd     func(s *Sim) // called by the scheduler when the run proper is over, before goroutines are released
 	// SkipFSClose: Close of a file is not a scheduling point (default true via !FSCloseEvent)
 	FSCloseEvent bool
 }
@@ -142,7 +143,7 @@ type Sim struct {
 	Tape     []uint32
 
 	FS   *FS
-	pool map[*sync.Pool][]any
+	pool []poolFree
 
 	free     atomic.Bool
 	Deadlock bool
@@ -165,6 +166,7 @@ type Sim struct {
 	PoolReuse   int
 	SimStart    time.Time
 	SimEnd      time.Time
+	token       int64  // race detector: tasks release on it before parking, the scheduler acquires
 	Leaked      int    // tasks still alive when the bubble was left
 	RootPanic   string // synctest complaint when leaving the bubble
 }
@@ -319,10 +321,15 @@ var active atomic.Pointer[Sim]
 //go:norace
 func (t *Task) park(site Site) {
 	t.site = site
+	// The scheduler must see everything this task did (one-way edge); nothing
+	// of the hand-off may order this task after other tasks in the eyes of the
+	// race detector.
+	// (park is always called inside the dark window of an entry point.)
+	raceOn()
+	raceRelease(unsafe.Pointer(&t.sim.token))
 	raceOff()
 	t.state.Store(stParked)
 	<-t.wake
-	raceOn()
 	if t.killed.Load() {
 		t.exit()
 	}
@@ -333,12 +340,20 @@ func (t *Task) exit() {
 	if !t.exiting {
 		t.exiting = true
 		t.inHook = true
+		raceOn() // leave the dark window of the enclosing entry point
 		runtime.Goexit()
 	}
 }
 
 //go:norace
 func chanHook(kind int, c unsafe.Pointer, pc uintptr) {
+	raceOff()
+	chanHook1(kind, c, pc)
+	raceOn()
+}
+
+//go:norace
+func chanHook1(kind int, c unsafe.Pointer, pc uintptr) {
 	t := lookup()
 	if t == nil || t.inHook {
 		return
@@ -367,6 +382,14 @@ func chanHook(kind int, c unsafe.Pointer, pc uintptr) {
 
 //go:norace
 func selHook(n uint32) (uint32, bool) {
+	raceOff()
+	v, ok := selHook1(n)
+	raceOn()
+	return v, ok
+}
+
+//go:norace
+func selHook1(n uint32) (uint32, bool) {
 	t := lookup()
 	if t == nil || !t.inSelect || t.killed.Load() {
 		return 0, false
@@ -383,6 +406,14 @@ func selHook(n uint32) (uint32, bool) {
 
 //go:norace
 func mapHook() (uint64, bool) {
+	raceOff()
+	v, ok := mapHook1()
+	raceOn()
+	return v, ok
+}
+
+//go:norace
+func mapHook1() (uint64, bool) {
 	t := lookup()
 	if t == nil || t.inHook || t.killed.Load() {
 		return 0, false
@@ -408,6 +439,14 @@ func mapHook() (uint64, bool) {
 
 //go:norace
 func spawnHook(fn unsafe.Pointer, pc uintptr) unsafe.Pointer {
+	raceOff()
+	w := spawnHook1(fn, pc)
+	raceOn()
+	return w
+}
+
+//go:norace
+func spawnHook1(fn unsafe.Pointer, pc uintptr) unsafe.Pointer {
 	t := lookup()
 	if t == nil || t.inHook || t.killed.Load() {
 		return nil
@@ -438,6 +477,13 @@ func spawnHook(fn unsafe.Pointer, pc uintptr) unsafe.Pointer {
 
 //go:norace
 func lockHook(m unsafe.Pointer, kind int) {
+	raceOff()
+	lockHook1(m, kind)
+	raceOn()
+}
+
+//go:norace
+func lockHook1(m unsafe.Pointer, kind int) {
 	t := lookup()
 	if t == nil || t.inHook {
 		return
@@ -450,7 +496,7 @@ func lockHook(m unsafe.Pointer, kind int) {
 		// unwinding: deferred code of a killed task takes locks for real
 		return
 	}
-	pc, ok := callerIsSim(3)
+	pc, ok := callerIsSim(4)
 	if !ok {
 		return
 	}
@@ -461,6 +507,29 @@ func lockHook(m unsafe.Pointer, kind int) {
 
 //go:norace
 func poolHook(p *sync.Pool, x any, put bool) (any, bool) {
+	raceOff()
+	y, ok := poolHook1(p, x, put)
+	raceOn()
+	if ok && RaceBuild {
+		// the same happens-before edge the real pool gives: Put -> Get of that object
+		if put {
+			raceRelease(ifacePtr(x))
+		} else if y != nil {
+			raceAcquire(ifacePtr(y))
+		}
+	}
+	return y, ok
+}
+
+// ifacePtr returns the data pointer of an interface value holding a pointer.
+//
+//go:norace
+func ifacePtr(x any) unsafe.Pointer {
+	return (*[2]unsafe.Pointer)(unsafe.Pointer(&x))[1]
+}
+
+//go:norace
+func poolHook1(p *sync.Pool, x any, put bool) (any, bool) {
 	t := lookup()
 	if t == nil || t.inHook {
 		return nil, false
@@ -469,7 +538,7 @@ func poolHook(p *sync.Pool, x any, put bool) (any, bool) {
 	if !s.Opt.PoolSim || s.free.Load() || t.killed.Load() {
 		return nil, false
 	}
-	if _, ok := callerIsSim(3); !ok {
+	if _, ok := callerIsSim(4); !ok {
 		return nil, false
 	}
 	t.inHook = true
@@ -478,11 +547,13 @@ func poolHook(p *sync.Pool, x any, put bool) (any, bool) {
 		if s.Opt.Poison != nil {
 			s.Opt.Poison(x)
 		}
-		s.pool[p] = append(s.pool[p], x)
+		pf := s.poolOf(p)
+		pf.free = append(pf.free, x)
 		return nil, true
 	}
 	s.PoolGets++
-	fl := s.pool[p]
+	pf := s.poolOf(p)
+	fl := pf.free
 	if len(fl) == 0 {
 		return nil, true
 	}
@@ -493,14 +564,38 @@ func poolHook(p *sync.Pool, x any, put bool) (any, bool) {
 	s.PoolReuse++
 	x = fl[k]
 	fl[k] = fl[len(fl)-1]
-	s.pool[p] = fl[:len(fl)-1]
+	pf.free = fl[:len(fl)-1]
 	return x, true
+}
+
+type poolFree struct {
+	p    *sync.Pool
+	free []any
+}
+
+//go:norace
+func (s *Sim) poolOf(p *sync.Pool) *poolFree {
+	for i := range s.pool {
+		if s.pool[i].p == p {
+			return &s.pool[i]
+		}
+	}
+	s.pool = append(s.pool, poolFree{p: p})
+	return &s.pool[len(s.pool)-1]
 }
 
 var errKilled = fmt.Errorf("simrt: file mutation by a killed task refused")
 
 //go:norace
 func fsHook(op int, name, name2 string, n int64) error {
+	raceOff()
+	err := fsHook1(op, name, name2, n)
+	raceOn()
+	return err
+}
+
+//go:norace
+func fsHook1(op int, name, name2 string, n int64) error {
 	t := lookup()
 	if t == nil || t.inHook {
 		return nil
@@ -568,7 +663,6 @@ func (s *Sim) newTask(name string, client bool) *Task {
 func (s *Sim) taskMain(t *Task, fn func()) {
 	t.goid = runtime.VerifGoid()
 	t.inHook = true
-	register(t)
 	defer func() {
 		r := recover()
 		t.inHook = true
@@ -576,10 +670,16 @@ func (s *Sim) taskMain(t *Task, fn func()) {
 			t.PanicVal = r
 			t.PanicStack = string(debug.Stack())
 		}
+		raceRelease(unsafe.Pointer(&s.token))
+		raceOff()
 		unregister(t)
 		t.state.Store(stDone)
+		raceOn()
 	}()
+	raceOff()
+	register(t)
 	t.park(Site{Kind: SiteStart})
+	raceOn()
 	t.inHook = false
 	fn()
 }
@@ -615,6 +715,13 @@ func (s *Sim) Seq() int {
 //
 //go:norace
 func (s *Sim) Yield(tag string) {
+	raceOff()
+	s.yield1(tag)
+	raceOn()
+}
+
+//go:norace
+func (s *Sim) yield1(tag string) {
 	t := lookup()
 	if t == nil || t.inHook || s.free.Load() {
 		return
@@ -632,6 +739,13 @@ func (s *Sim) Yield(tag string) {
 //
 //go:norace
 func (s *Sim) WaitUntil(tag string, cond func() bool) {
+	raceOff()
+	s.waitUntil1(tag, cond)
+	raceOn()
+}
+
+//go:norace
+func (s *Sim) waitUntil1(tag string, cond func() bool) {
 	t := lookup()
 	if t == nil || t.inHook || s.free.Load() {
 		return
@@ -649,6 +763,13 @@ func (s *Sim) WaitUntil(tag string, cond func() bool) {
 //
 //go:norace
 func (s *Sim) Sleep(d time.Duration) {
+	raceOff()
+	s.sleep1(d)
+	raceOn()
+}
+
+//go:norace
+func (s *Sim) sleep1(d time.Duration) {
 	t := lookup()
 	if t == nil || t.inHook || s.free.Load() {
 		return
@@ -666,6 +787,13 @@ func (s *Sim) Sleep(d time.Duration) {
 //
 //go:norace
 func (s *Sim) APIBegin(tag string) {
+	raceOff()
+	s.aPIBegin1(tag)
+	raceOn()
+}
+
+//go:norace
+func (s *Sim) aPIBegin1(tag string) {
 	t := lookup()
 	if t == nil || t.inHook || s.free.Load() {
 		return
@@ -843,6 +971,7 @@ func (s *Sim) clockDelta() time.Duration {
 func (s *Sim) loop() {
 	for {
 		synctest.Wait()
+		raceAcquire(unsafe.Pointer(&s.token))
 		if s.Abort != "" {
 			return
 		}
@@ -857,11 +986,13 @@ func (s *Sim) loop() {
 			return
 		}
 		var run []*Task
+		raceOff() // lock probes must not publish the scheduler's knowledge to the tasks
 		for _, t := range s.tasks {
 			if t.state.Load() == stParked && s.admissible(t) {
 				run = append(run, t)
 			}
 		}
+		raceOn()
 		if len(run) == 0 {
 			if !s.slept {
 				// a task may be waiting for a timer of the code under test
@@ -948,6 +1079,11 @@ func (s *Sim) Now() time.Time { return time.Now() }
 //go:norace
 func (s *Sim) end() {
 	s.FS.settleIfAny()
+	if s.Opt.OnEnd != nil {
+		s.Opt.OnEnd(s)
+	}
+	raceOff()
+	defer raceOn()
 	for _, t := range s.tasks {
 		t.killed.Store(true)
 	}
@@ -982,7 +1118,7 @@ func Run(t *testing.T, opt Options, main func(s *Sim)) (s *Sim) {
 		opt.Strategy = StratRandom
 	}
 	s = &Sim{Opt: opt, rng: NewSplitMix(opt.Seed), aux: NewSplitMix(opt.Seed ^ 0xabcdef12345),
-		pool: map[*sync.Pool][]any{}, SwitchPairs: map[uint64]struct{}{}, Hash: 0xcbf29ce484222325}
+		SwitchPairs: map[uint64]struct{}{}, Hash: 0xcbf29ce484222325}
 	if opt.Dir != "" {
 		s.FS = newFS(opt.Dir)
 	} else {
@@ -1010,7 +1146,7 @@ func Run(t *testing.T, opt Options, main func(s *Sim)) (s *Sim) {
 			}
 		}
 	}()
-	synctest.Test(t, func(t *testing.T) {
+	synctest.VerifRun(func() {
 		active.Store(s)
 		defer active.Store(nil)
 		s.SimStart = time.Now()
